@@ -34,6 +34,29 @@ func zzC20_code() {
 	}
 }
 
+// history independence: the answer for one request does not depend on the No-Response values of the requests
+// handled before it in the same process (the decision tables are package-level state)
+func zzC20_sequence() {
+	// every combination of the three class bits; the thorough tier adds the two reserved low bits (all 32 values)
+	first := []uint32{0, 2, 8, 10, 16, 18, 24, 26}[symChoose("earlier-class-bits", 8)]
+	if symParam("values", 8) > 8 {
+		first |= []uint32{0, 1, 4, 5}[symChoose("earlier-reserved-bits", 4)]
+	}
+	_ = IsNoResponseCode(codes.Content, first)
+	_ = IsNoResponseCode(codes.InternalServerError, first)
+	code := symU16("code")
+	v := symU32("v")
+	err := IsNoResponseCode(codes.Code(code), v)
+	want := zzC20_rfc(code, v)
+	if want {
+		symCover("suppressed-after-history")
+		symAssert(err != nil, "response of a class marked not-of-interest is refused, whatever was decided before")
+	} else {
+		symCover("wanted-after-history")
+		symAssert(err == nil, "response of a class that was not suppressed is accepted, whatever was decided before")
+	}
+}
+
 func zzC20_selftest() {
 	code := symU16("code")
 	v := symU32("v")
